@@ -59,6 +59,24 @@ def strace_wrap(cmd, outdir, shard):
     return ["strace", "-f", "-qq", "-e", "trace=mprotect,mmap,munmap", "-o", os.path.join(outdir, "strace-%d.txt" % shard)] + cmd
 
 
+def prep_corpus(tree, scratch, env):
+    """generate the corpus of mock targets (DESIGN 2.2): quick tiers use the fixed corpus seed, thorough tiers derive it from VERIF_SEED"""
+    seed = CORPUS_SEED
+    if os.environ.get("VERIF_TIER_RESOLVED") == "thorough":
+        try:
+            seed = CORPUS_SEED + int(os.environ.get("VERIF_SEED", "1") or "1")
+        except ValueError:
+            pass
+    dst = os.path.join(tree, "zverif", "corpus")
+    os.makedirs(dst, exist_ok=True)
+    r = subprocess.run(["python3", os.path.join(VERIF, "harness", "gencorpus.py"), str(seed), dst, "120"],
+                       stdout=subprocess.PIPE, stderr=subprocess.STDOUT, text=True)
+    if r.returncode != 0:
+        raise RuntimeError("gencorpus failed: " + r.stdout)
+
+
+CORPUS_SEED = 20260927
+
 PROPS = {}
 
 PROPS["C15"] = {
@@ -186,4 +204,23 @@ PROPS["C03"] = {
             "distinct by (function, placeholder address).",
     "assumptions": ["reference decoder is the toolchain's x86asm copy", "placeholders lie within +-2GiB of the function (they are functions of the same text segment)"],
     "floors": [("static", "accepted", 5000), ("static", "refused", 20)],
+}
+
+PROPS["C01"] = {
+    "prepare": [prep_corpus],
+    "units": [
+        {"name": "histories", "pkg": "./zverif/c01", "run": "^TestVerifC01", "timeout": {"quick": 400, "thorough": 2400},
+         "shards": {"quick": 1, "thorough": 16}},
+    ],
+    "rule": "rapid draws histories of 4..30 operations (apply a compiled closure, apply a reflect.MakeFunc callback, stub with Return, call, GC, churn, reset) "
+            "over a window of 4 functions of a generated corpus of 120 functions (signature grammar: 0..20 parameters / 0..5 results over 33 types incl. "
+            "register overflow of integer and float registers, stack-passed arrays/structs, variadics); calls use 5 forms (direct, func value, defer, go, "
+            "reflect.Call), boundary-biased argument values, optionally from a goroutine that first recursed 20..620 frames. Oracle: the recorder - the "
+            "replacement saw the caller's arguments bit-exactly (pointers by identity, floats by bit pattern), the caller received the replacement's / "
+            "the stub's results, the original body did not run, the replacement ran exactly once. Plus os.Getenv mocked and observed through "
+            "os.ExpandEnv (library caller). Non-trivial: a history with a mocked call to a function with parameters or results and a non-zero "
+            "argument or result; distinct by the sequence of (function, form, mock kind, value codes).",
+    "assumptions": ["functions are compiled with -gcflags=all=-l as goom requires", "generic functions with parameters are not in this corpus (known finding, see C06)"],
+    "floors": [("histories", "call/repl", 300), ("histories", "call/ret", 200), ("histories", "call/after-gc", 50),
+               ("histories", "call/after-stack-growth", 100), ("histories", "abi/int-overflow", 20), ("histories", "abi/float-overflow", 20)],
 }
